@@ -1529,3 +1529,114 @@ Lemma forced_close_pairing_example :
   forced_close ps (fold_left h5step [HNode; HFailedRead] no_ids) = mkids 0 1 0 0 /\
   file_released (forced_close ps (fold_left h5step [HNode; HFailedRead] no_ids)) = false.
 Proof. split; reflexivity. Qed.
+
+(* ------------------------------------------------------------------ refused opens: the library holds what it held *)
+Lemma same_holdings_refl a : same_holdings a a.
+Proof. split; [reflexivity|]. intros j. split; auto. Qed.
+
+Lemma slot_at_really_close a i j : i < length (tab a) ->
+  slot_at (really_close a i) j = if Nat.eq_dec j i then free_slot else slot_at a j.
+Proof.
+  intros Li. unfold really_close. destruct (Nat.eq_dec j i) as [->|Hj].
+  - apply slot_at_upd_eq. exact Li.
+  - rewrite slot_at_upd_neq by auto. unfold slot_at. reflexivity.
+Qed.
+
+Lemma adf_open_fail_holdings v fuel w a n rw a' :
+  adf_database_open v fuel w a n rw = Some (a', None) -> same_holdings a a'.
+Proof.
+  intros H. split; [eapply adf_open_fail_ledger; eauto|].
+  unfold adf_database_open in H.
+  assert (G : forall k,
+     (let '(a1, oi) := adfi_open_file a n (if header_ok k then Some (file_attr w n) else None) (os_open_ok k rw) in
+         match oi with
+         | None => Some (a1, None)
+         | Some i => if header_ok k then Some (a1, Some i)
+                     else match adfi_close_file v fuel a1 i with
+                          | None => None
+                          | Some (a2, _) => Some (a2, None)
+                          end
+         end) = Some (a', None) ->
+     forall j, in_use (slot_at a' j) = in_use (slot_at a j) /\ (in_use (slot_at a j) <> 0 -> slot_at a' j = slot_at a j)).
+  { intros k. destruct (adfi_open_file a n (if header_ok k then Some (file_attr w n) else None) (os_open_ok k rw)) as [a1 [i|]] eqn:Op.
+    - pose proof (adfi_open_file_spec _ _ _ _ _ _ Op) as Sp; simpl in Sp.
+      destruct (header_ok k); [discriminate|]. destruct Sp as (Z & Li & E1 & E2 & El).
+      destruct (adfi_close_file v fuel a1 i) as [[a2 e]|] eqn:Cl; [|discriminate].
+      intros Q. inversion Q; subst. destruct (close_fresh _ _ _ _ _ _ _ Li E1 Cl) as [-> _].
+      assert (RC : forall j, slot_at (really_close a1 i) j = if Nat.eq_dec j i then free_slot else slot_at a j).
+      { intros j. rewrite slot_at_really_close by exact Li. destruct (Nat.eq_dec j i); [reflexivity|apply E2; auto]. }
+      assert (RI : forall j, in_use (slot_at (really_close a1 i) j) = in_use (slot_at a j)).
+      { intros j. rewrite RC. destruct (Nat.eq_dec j i) as [->|]; [rewrite Z; reflexivity|reflexivity]. }
+      intros j. unfold free_if_idle. destruct (forallb _ _) eqn:Fa.
+      + assert (I0 : in_use (slot_at a j) = 0).
+        { rewrite <- RI. rewrite (forallb_idle_all _ Fa). reflexivity. }
+        split; [|intros C; contradiction].
+        rewrite I0. unfold slot_at. simpl. destruct j; reflexivity.
+      + split; [apply RI|]. intros Hj. rewrite RC. destruct (Nat.eq_dec j i) as [->|]; [congruence|reflexivity].
+    - (* ADFI_open_file itself failed: the entry it had chosen was free *)
+      unfold adfi_open_file in Op. destruct (find_free_spec (tab a)) as [F1 F2].
+      set (i := find_free (tab a)) in *.
+      set (t1 := if negb (i <? length (tab a)) then tab a ++ repeat free_slot ADF_FILE_INC else tab a) in *.
+      set (m1 := if negb (i <? length (tab a)) then amem a ++ repeat zero_attr ADF_FILE_INC else amem a) in *.
+      assert (S1 : forall j led c am, slot_at (mkadf t1 led c am) j = slot_at a j).
+      { intros j led c am. unfold t1. destruct (i <? length (tab a)); cbn [negb]; [reflexivity|]. rewrite slot_at_app_free. reflexivity. }
+      assert (Li : i < length t1).
+      { unfold t1. destruct (Nat.ltb_spec i (length (tab a))); cbn [negb]; [lia|]. rewrite app_length, repeat_length. unfold ADF_FILE_INC. lia. }
+      assert (Z : in_use (slot_at a i) = 0).
+      { destruct (Nat.lt_ge_cases i (length (tab a))) as [H0|H0]; [apply F2; exact H0|]. rewrite slot_at_out by lia. reflexivity. }
+      destruct (MAXIMUM_FILES <? i).
+      + inversion Op; subst. intros Q. inversion Q; subst. intros j. rewrite S1. split; auto.
+      + destruct (os_open_ok k rw); [discriminate|]. inversion Op; subst. intros Q. inversion Q; subst.
+        intros j. destruct (Nat.eq_dec j i) as [->|Hj].
+        * rewrite slot_at_upd_eq by exact Li. rewrite Z. split; [reflexivity|intros C; contradiction].
+        * rewrite slot_at_upd_neq by auto. rewrite S1. split; auto. }
+  destruct (kind_of w n) as [| | |code|] eqn:K.
+  - exact (G KOk H).
+  - inversion H; subst. intros j. split; auto.
+  - exact (G KGarbage H).
+  - exact (G (KBadHdr code) H).
+  - exact (G KDir H).
+Qed.
+
+(* THE STATEMENT about refused opens: whatever the state, an open of a file the world marks as refused (missing, not a
+   database, a directory, or a database whose header ADF_Database_Open rejects after having opened the file) returns an
+   error, leaves the cgio table as it was, and the ADF layer holds exactly what it held *)
+Theorem refused_open_keeps_holdings : forall v fuel w s n rw s' r,
+  refused (kind_of w n) = true -> cgio_open_file v fuel w s n rw = Some (s', r) ->
+  r = None /\ same_holdings (io_adf s) (io_adf s') /\ iol s' = iol s /\ nopen s' = nopen s.
+Proof.
+  intros v fuel w s n rw s' r Rf. unfold cgio_open_file.
+  assert (G : forall code, kind_of w n = KBadHdr code ->
+         match adf_database_open v fuel w (io_adf s) n rw with
+         | None => None
+         | Some (a1, None) => Some (mkio a1 (iol s) (nopen s), None)
+         | Some (a1, Some idx) =>
+             let l0 := match iol s with [] => repeat None 5 | l => l end in
+             let k := first_none l0 in
+             let l1 := if k <? length l0 then l0 else l0 ++ [None] in
+             Some (mkio a1 (upd l1 k (Some idx)) (S (nopen s)), Some (S k))
+         end = Some (s', r) ->
+         r = None /\ same_holdings (io_adf s) (io_adf s') /\ iol s' = iol s /\ nopen s' = nopen s).
+  { intros code K. destruct (adf_database_open v fuel w (io_adf s) n rw) as [[a1 [idx|]]|] eqn:Op; try discriminate.
+    - exfalso. unfold adf_database_open in Op. rewrite K in Op. simpl in Op.
+      destruct (adfi_open_file (io_adf s) n None true) as [a0 [i|]]; [|discriminate].
+      destruct (adfi_close_file v fuel a0 i) as [[? ?]|]; discriminate.
+    - intros Q. inversion Q; subst. simpl. split; [reflexivity|]. split; [|split; reflexivity].
+      eapply adf_open_fail_holdings; eauto. }
+  destruct (kind_of w n) eqn:K; try discriminate Rf;
+    try (intros Q; inversion Q; subst; split; [reflexivity|]; split; [apply same_holdings_refl|split; reflexivity]).
+  apply (G _ eq_refl).
+Qed.
+
+(* file 1 carries a minor format revision newer than the library's (ADF error 57 = INVALID_VERSION, raised after the file was
+   opened): refused three times between uses of file 0, and a link to it followed -- nothing but file 0 is ever held *)
+Definition w5 : world := mkW [KOk; KBadHdr 57] [(0, 1)] [] [].
+Lemma refused_example :
+  exists s rs, run Cur 1000 w5 io_init [] [OOpen 1 false; OOpen 0 false; OOpen 1 true; OWalk 1 [(1, false)]; OOpen 1 false] = Some (s, [1], rs) /\
+               rs = [ResOpen None; ResOpen (Some 1); ResOpen None; ResWalk false; ResOpen None] /\ ledger (io_adf s) = [0] /\
+               nopen s = 1 /\ in_use (slot_at (io_adf s) 0) = 1 /\ in_use (slot_at (io_adf s) 1) = 0.
+Proof.
+  destruct (run Cur 1000 w5 io_init [] [OOpen 1 false; OOpen 0 false; OOpen 1 true; OWalk 1 [(1, false)]; OOpen 1 false]) as [[[s p] rs]|] eqn:E;
+    [|vm_compute in E; discriminate].
+  vm_compute in E. inversion E; subst. clear E. eexists. eexists. split; [reflexivity|]. repeat split.
+Qed.
